@@ -375,3 +375,27 @@ prop("C16",
      level_text="Generated keyspaces x paginations x fault points against the real three-goroutine pipeline; about a hundred executors per quick run.",
      level_note="Trusted: harness/mredis, the SCAN/DUMP/PTTL script hook. SCAN duplicates and keys re-created between DUMP and PTTL are outside the stated domain. Pre-existing keys only under rewrite (under none a busy key aborts the run, which is a report, not a copy).",
      assumptions=["no duplicate keys across SCAN pages", "keys in a key file contain no line breaks"])
+
+prop("C08",
+     title="Offsets reported to the source are exactly 'start offset + bytes consumed'",
+     timing=True,
+     quick=[{"re": "^TestC08$", "checks": 2, "shards": 2, "timeout": 600},
+            {"re": "^TestC08EndToEnd$", "checks": 2, "shards": 2, "timeout": 600}],
+     thorough=[{"re": "^TestC08$", "checks": 72, "shards": 12, "timeout": 1700},
+               {"re": "^TestC08EndToEnd$", "checks": 60, "shards": 10, "timeout": 1700}],
+     rule="(histories) one rapid case = a batch of 8-16 fake-source histories run concurrently against the real sendPSyncCmd/runIncrementalSync/pSyncPipeCopy: "
+          "start offset in {0,57,2^33}, FULLRESYNC (small RDB) or CONTINUE, WaitFull closed 0-2.3 s after the handshake, a timeline of bursts (1-300 bytes) and "
+          "idle gaps (0/0.2/0.6/1.1/2.5 s) spanning >= 3 ACK ticks, optionally one drop of the link (after everything sent was flushed) followed by 0-1 s of "
+          "refused reconnects; the source answers the reconnect PSYNC as a master does (continues at the requested offset). The fake source records every "
+          "REPLCONF ACK / PSYNC with the number of stream bytes it had sent by then. Oracle (timing-robust): ACK == 0 until the full phase is over; afterwards "
+          "never ahead of start + bytes sent, never decreasing, and exact once the stream has been idle for > 2 ticks; reconnect PSYNC == <same run id> "
+          "start + bytes sent before the drop + 1; the consumer of the pipe sees RDB || stream continue byte-exactly across the reconnect. (end to end) "
+          "batches of 4-8 complete DbSyncer.Sync() runs with resume on against fake source + model target: LoadCheckpoint, PSYNC, full sync of a small RDB, "
+          "then 5-18 commands (RPUSH/SELECT/PING) spread over >= 2.6 s with an optional drop: target applies exactly the source's commands once, reconnect "
+          "offset exact, and every checkpoint offset stored in the target == start + end position of the last source command of its group (checked against "
+          "the number of data commands applied when it was stored). Non-trivial: >=2 ACKs or a drop; every end-to-end run. Distinct = hash of the script.",
+     technique="property-based testing (rapid) with generated traffic/fault timelines against a recording fake replication source; history-invariant oracles over the recorded ACK/PSYNC trace; batched instances",
+     level_text="Generated wall-clock histories spanning several acknowledgement ticks with injected link drops; the oracles are inequalities/equalities over the source-side trace that hold for every scheduling. A few dozen histories per quick run (each costs 4-8 s of wall time), thousands in thorough.",
+     level_note="Trusted: harness/fsrc bookkeeping (bytes handed to the socket before a command was read). The full 32 MiB buffers of sendPSyncCmd are used. Behaviour over hours (retry counter reset) is out of reach.",
+     assumptions=["the source closes a link only after its writes completed; the tool reads to EOF",
+                  "after a drop the source answers PSYNC <runid> <o> with +CONTINUE and the bytes from offset o on"])
